@@ -4,3 +4,4 @@ pub mod print;
 pub mod prog;
 pub mod text;
 pub mod walk;
+pub mod wild;
